@@ -343,7 +343,19 @@ func c06Malformed(c *fw.Case, n int) {
 		good, _ := oracle.ModelHash(code, v)
 		raw, _ := oracle.B64DecodeStrict(good)
 		var bad, class string
-		switch r.Intn(9) {
+		switch r.Intn(12) {
+		case 9:
+			// the code written as a longer varint than needed (0x92 0x00 for 0x12): not the minimal encoding
+			bad = oracle.B64(append([]byte{0x80 | byte(code), 0x00}, raw[1:]...))
+			class = "code-varint-not-minimal"
+		case 10:
+			// the length written as a longer varint than needed
+			bad = oracle.B64(append([]byte{byte(code), 0x80 | raw[1], 0x00}, raw[2:]...))
+			class = "length-varint-not-minimal"
+		case 11:
+			// ten-byte varint code
+			bad = oracle.B64(append(append([]byte{0x80 | byte(code), 0x80, 0x80, 0x80, 0x80, 0x80, 0x80, 0x80, 0x80, 0x00}, raw[1:]...)))
+			class = "code-varint-ten-bytes"
 		case 0:
 			pos := r.Intn(len(good))
 			bad = good[:pos] + string("!*+/.= \x00\x7f"[r.Intn(9)]) + good[pos+1:]
